@@ -32,6 +32,20 @@ impl SharedMemoryLimiter {
         self.current_usage.load(Ordering::Relaxed)
     }
 
+    /// Verification hook: bytes currently accounted for.
+    #[cfg(feature = "_verif_hooks")]
+    #[must_use]
+    pub fn verif_usage(&self) -> usize {
+        self.current_usage.load(Ordering::Relaxed)
+    }
+
+    /// Verification hook: the configured limit.
+    #[cfg(feature = "_verif_hooks")]
+    #[must_use]
+    pub fn verif_max(&self) -> usize {
+        self.max
+    }
+
     #[inline]
     pub fn increase_usage(&self, byte_count: usize) -> Result<(), MemoryLimitExceededError> {
         let previous_usage = self.current_usage.fetch_add(byte_count, Ordering::Relaxed);
